@@ -399,6 +399,7 @@ int main(int argc, char **argv)
   ObsSys obs;
   TsSys ts;
   if (vr::replaying()) {
+    sq::replay_symbolized(argv);
     std::string r = vr::S().replay;
     size_t c = r.find(':');
     std::string tag = r.substr(0, c), hist = c == std::string::npos ? "" : r.substr(c + 1);
